@@ -150,6 +150,7 @@ def plan_C09(ctx):
 
 def plan_C10(ctx):
     run_family(ctx, "xver", n_of(ctx, 80, 1500), perfile=n_of(ctx, 8, 20))
+    run_family(ctx, "xver_big", n_of(ctx, 14, 140), perfile=1)
     canary(ctx)
 
 
